@@ -81,7 +81,7 @@ func runC17(r *Report, tier string) {
 			}
 			if k == exitFailure {
 				nfail++
-				et := res[1].String()
+				et := P.expandErr(res[1], 0).String()
 				fam, supported := fams[alg]
 				_ = fam
 				if !known || !supported {
